@@ -96,7 +96,7 @@ def generate(seed: int, tier: str = "quick", index=None) -> dict:
     elif roll < 0.45:
         tr = {"kind": "pipe"}
     elif roll < 0.75:
-        tr = common.draw_transport(r_sch, wire_len, spans, kinds=("socket",), ends=("close", "timeout", "reset", "ehostunreach", "ebadf", "enotconn"))
+        tr = common.draw_transport(r_sch, wire_len, spans, kinds=("socket", "socket", "socket", "tlssocket"), ends=("close", "timeout", "reset", "ehostunreach", "ebadf", "enotconn"))
         cfg["bufsize"] = r_sch.choice(sched.BUFSIZES)
     elif roll < 0.87:
         sizes = sched.random_segments(r_sch, wire_len, spans)
@@ -155,7 +155,7 @@ def _judge_reader(scn, res=None):
     items = []
     verdict = None
     try:
-        with StepMeter(LOOP_BUDGET):
+        with core.clock(tp), StepMeter(LOOP_BUDGET):
             ubr = UBXReader(tp, **kw)
             if cfg.get("drive") == "read":
                 # call read() directly: nothing but a protocol error may come out of it, and a
